@@ -137,88 +137,115 @@ def check(ctx):
             % (name, res.distinct, res.generated - 1, loops, res.emits - 1, c.get("violations_total", 0), c.get("drift_total", 0)))
         os.remove(cases)
 
-    # (A2) index entries: the neighbourhood of the entry Put writes
+    def guarded(stage):
+        """A later stage whose driver cannot run on this tree (the fixture itself trips over the change, say) must not hide
+        what an earlier stage found: with violations in hand the stage is skipped, without them it is no verdict."""
+        try:
+            stage()
+        except NoVerdict as e:
+            if not violations:
+                raise
+            log("stage %s not run to its end (%s); judging what the earlier stages found" % (stage.__name__, str(e).splitlines()[0][:200]))
+
     stride = 97 if ctx.tier == "quick" else 3
     offset = ctx.seed % stride
-    cases = ctx.path("cases-entries.ndjson")
-    res = tlc(ctx, SPECDIR, "MC_IndexEntry.tla", "MC_entries.cfg", cfg_text=entry_cfg(stride, offset), emit_to=cases,
-              workers=NCPU, timeout=2400, name="MC_entries")
-    require_tlc_ok(res, "laws of the index entry grammar")
-    out = ctx.path("replay-entries.json")
-    run_driver(ctx, [drv, "-mode", "entries", "-cases", cases, "-work", ctx.mkdir("work-entries"), "-out", out], timeout=1200)
-    r = absorb(out, "entries")
-    n_entries = r["counters"].get("cases", 0)
-    if n_entries != res.emits - 1 or n_entries == 0:
-        raise NoVerdict("driver replayed %d of %d emitted index entries" % (n_entries, res.emits - 1))
-    runs.append(dict(config="entries", stride=stride, offset=offset, tlc_distinct_states=res.distinct, entries_emitted=n_entries,
-                     accepted_by_real_get=r["counters"].get("accepted", 0), violations=r["counters"].get("violations_total", 0),
-                     drift=r["counters"].get("drift_total", 0)))
-    log("C05 entries: %d states, %d index entries replayed (%d accepted), %d violations, drift %d"
-        % (res.distinct, n_entries, r["counters"].get("accepted", 0), r["counters"].get("violations_total", 0),
-           r["counters"].get("drift_total", 0)))
-    os.remove(cases)
-
-    # (B1) seeded random index files: the real Get is recorded, TLC evaluates the grammar on every record
     nrand = 2000 if ctx.tier == "quick" else 30000
-    trace = ctx.path("trace.ndjson")
-    out = ctx.path("fuzz.json")
-    crumbs = ctx.mkdir("crumbs")
-    fuzz_died = None
-    try:
-        run_driver(ctx, [drv, "-mode", "fuzz", "-n", str(nrand), "-trace", trace, "-work", ctx.mkdir("work-fuzz"), "-out", out,
-                         "-crumbs", crumbs], timeout=1200)
-        absorb(out, "fuzz")
-    except NoVerdict as e:
-        # the driver process died.  If the entries whose lookups were in flight kill a fresh process again, each on its own,
-        # that is the code under test ("no lookup panics": a lookup that takes the process down is worse), not the harness
-        fuzz_died = e
-        killers = []
-        for k, f in enumerate(sorted(os.listdir(crumbs))[:16]):
-            one = ctx.path("one-%d.json" % k)
-            try:
-                run_driver(ctx, [drv, "-mode", "one", "-cases", os.path.join(crumbs, f), "-work", ctx.mkdir("work-one-%d" % k), "-out", one],
-                           timeout=120)
-            except NoVerdict as e1:
-                with open(os.path.join(crumbs, f)) as fh:
-                    c = json.load(fh)
-                entry = bytes(c["e"]).decode("latin-1")
-                tail = str(e1)
-                why = "out of memory" if "out of memory" in tail else "makeslice" if "makeslice" in tail else "crash"
-                killers.append(dict(kind="lookup-kills-process", **{"class": "i%d %r" % (c["id"], entry)},
-                                    what="Get / GetBytes / GetFile on an index file with these bytes brings the whole process down (%s), "
-                                         "reproduced in a process of its own" % why,
-                                    input=dict(index_file=entry, bytes=c["e"], id="i%d" % c["id"]), detail=tail[-1500:]))
-        if not killers:
-            raise
-        violations.extend(killers)
-        counters["fuzz:lookup_kills_process"] = len(killers)
-    if fuzz_died is None:
-        res = tlc(ctx, SPECDIR, "Trace_IndexEntry.tla", "Trace_IndexEntry.cfg", files=[trace], workers=NCPU, timeout=2400,
-                  expect_violation=True)
-        ctx.tlc_states += res.distinct
-        ctx.tlc_transitions += max(res.generated - 1, 0)
-        if not res.ok:
-            raise NoVerdict("trace validation did not complete:\n%s" % res.violation)
-        if res.distinct != nrand:
-            raise NoVerdict("trace validation visited %d of %d records" % (res.distinct, nrand))
-        bad = bad_traces(res)
-        trace_drift = 0
-        if bad:
-            recs = open(trace).read().splitlines()
-            for idx, invs in sorted(bad.items()):
-                rec = json.loads(recs[idx - 1])
-                text = bytes(rec["e"]).decode("latin-1")
-                if "RecNoPanic" in invs:
-                    violations.append(dict(kind="panic", **{"class": "i%d %r" % (rec["id"], text)},
-                                           what="Get panicked on the index file %r (rejected by TLC: RecNoPanic)" % text,
-                                           input=dict(index_file=text, bytes=rec["e"], id="i%d" % rec["id"])))
-                else:
-                    trace_drift += 1
-                    drift.append(dict(kind="trace-" + ",".join(sorted(invs)), what="the real Get and the grammar of IndexEntry.tla differ on %r" % text,
-                                      input=dict(index_file=text, id="i%d" % rec["id"], real_accepts=rec["acc"])))
-        counters["drift_total"] = counters.get("drift_total", 0) + trace_drift
-        runs.append(dict(config="fuzz", records=nrand, validated_by_tlc=res.distinct, rejected=len(bad)))
-        log("C05 fuzz: %d records of the real Get validated by TLC, %d rejected" % (nrand, len(bad)))
+
+    def stage_entries():
+        # (A2) index entries: the neighbourhood of the entry Put writes
+        cases = ctx.path("cases-entries.ndjson")
+        res = tlc(ctx, SPECDIR, "MC_IndexEntry.tla", "MC_entries.cfg", cfg_text=entry_cfg(stride, offset), emit_to=cases,
+                  workers=NCPU, timeout=2400, name="MC_entries")
+        require_tlc_ok(res, "laws of the index entry grammar")
+        out = ctx.path("replay-entries.json")
+        run_driver(ctx, [drv, "-mode", "entries", "-cases", cases, "-work", ctx.mkdir("work-entries"), "-out", out], timeout=1200)
+        r = absorb(out, "entries")
+        n_entries = r["counters"].get("cases", 0)
+        if n_entries != res.emits - 1 or n_entries == 0:
+            raise NoVerdict("driver replayed %d of %d emitted index entries" % (n_entries, res.emits - 1))
+        runs.append(dict(config="entries", stride=stride, offset=offset, tlc_distinct_states=res.distinct, entries_emitted=n_entries,
+                         accepted_by_real_get=r["counters"].get("accepted", 0), violations=r["counters"].get("violations_total", 0),
+                         drift=r["counters"].get("drift_total", 0)))
+        log("C05 entries: %d states, %d index entries replayed (%d accepted), %d violations, drift %d"
+            % (res.distinct, n_entries, r["counters"].get("accepted", 0), r["counters"].get("violations_total", 0),
+               r["counters"].get("drift_total", 0)))
+        os.remove(cases)
+
+
+    def stage_fuzz():
+        # (B1) seeded random index files: the real Get is recorded, TLC evaluates the grammar on every record
+        trace = ctx.path("trace.ndjson")
+        out = ctx.path("fuzz.json")
+        crumbs = ctx.mkdir("crumbs")
+        fuzz_died = None
+        try:
+            run_driver(ctx, [drv, "-mode", "fuzz", "-n", str(nrand), "-trace", trace, "-work", ctx.mkdir("work-fuzz"), "-out", out,
+                             "-crumbs", crumbs], timeout=1200)
+            absorb(out, "fuzz")
+        except NoVerdict as e:
+            # the driver process died.  If the entries whose lookups were in flight kill a fresh process again, each on its own,
+            # that is the code under test ("no lookup panics": a lookup that takes the process down is worse), not the harness
+            fuzz_died = e
+            killers = []
+            for k, f in enumerate(sorted(os.listdir(crumbs))[:16]):
+                one = ctx.path("one-%d.json" % k)
+                try:
+                    run_driver(ctx, [drv, "-mode", "one", "-cases", os.path.join(crumbs, f), "-work", ctx.mkdir("work-one-%d" % k), "-out", one],
+                               timeout=120)
+                except NoVerdict as e1:
+                    with open(os.path.join(crumbs, f)) as fh:
+                        c = json.load(fh)
+                    entry = bytes(c["e"]).decode("latin-1")
+                    tail = str(e1)
+                    why = "out of memory" if "out of memory" in tail else "makeslice" if "makeslice" in tail else "crash"
+                    killers.append(dict(kind="lookup-kills-process", **{"class": "i%d %r" % (c["id"], entry)},
+                                        what="Get / GetBytes / GetFile on an index file with these bytes brings the whole process down (%s), "
+                                             "reproduced in a process of its own" % why,
+                                        input=dict(index_file=entry, bytes=c["e"], id="i%d" % c["id"]), detail=tail[-1500:]))
+            if not killers:
+                raise
+            violations.extend(killers)
+            counters["fuzz:lookup_kills_process"] = len(killers)
+        if fuzz_died is None:
+            res = tlc(ctx, SPECDIR, "Trace_IndexEntry.tla", "Trace_IndexEntry.cfg", files=[trace], workers=NCPU, timeout=2400,
+                      expect_violation=True)
+            ctx.tlc_states += res.distinct
+            ctx.tlc_transitions += max(res.generated - 1, 0)
+            if not res.ok:
+                raise NoVerdict("trace validation did not complete:\n%s" % res.violation)
+            if res.distinct != nrand:
+                raise NoVerdict("trace validation visited %d of %d records" % (res.distinct, nrand))
+            bad = bad_traces(res)
+            trace_drift = 0
+            if bad:
+                recs = open(trace).read().splitlines()
+                for idx, invs in sorted(bad.items()):
+                    rec = json.loads(recs[idx - 1])
+                    text = bytes(rec["e"]).decode("latin-1")
+                    if "RecNoPanic" in invs:
+                        violations.append(dict(kind="panic", **{"class": "i%d %r" % (rec["id"], text)},
+                                               what="Get panicked on the index file %r (rejected by TLC: RecNoPanic)" % text,
+                                               input=dict(index_file=text, bytes=rec["e"], id="i%d" % rec["id"])))
+                    else:
+                        trace_drift += 1
+                        drift.append(dict(kind="trace-" + ",".join(sorted(invs)), what="the real Get and the grammar of IndexEntry.tla differ on %r" % text,
+                                          input=dict(index_file=text, id="i%d" % rec["id"], real_accepts=rec["acc"])))
+            counters["drift_total"] = counters.get("drift_total", 0) + trace_drift
+            runs.append(dict(config="fuzz", records=nrand, validated_by_tlc=res.distinct, rejected=len(bad)))
+            log("C05 fuzz: %d records of the real Get validated by TLC, %d rejected" % (nrand, len(bad)))
+
+
+    def stage_envdamage():
+        # (C) states that reads and writes of file contents cannot produce (links to themselves, directories in place of
+        # files and the other way round): lookups must not panic and must stay sound
+        out = ctx.path("envdamage.json")
+        run_driver(ctx, [drv, "-mode", "envdamage", "-work", ctx.mkdir("work-envdamage"), "-out", out], timeout=600)
+        r = absorb(out, "envdamage")
+        runs.append(dict(config="envdamage", states=r["counters"].get("envdamage_states", 0)))
+
+    guarded(stage_entries)
+    guarded(stage_fuzz)
+    guarded(stage_envdamage)
 
     # panics are reported by the driver and by TLC: once is enough
     seen = set()
@@ -243,7 +270,7 @@ def check(ctx):
         samples=samples[:10], exhaustive=True,
         exhaustive_scope="all histories within the bounds of each hist run modulo the VIEW; all single substitutions / truncations / extensions; "
                          "double substitutions are %s" % ("sampled" if stride > 1 else "complete"),
-        history_transitions=hist_transitions, index_entries=n_entries,
+        history_transitions=hist_transitions, index_entries=next((r["entries_emitted"] for r in runs if r.get("config") == "entries"), 0),
         traces_validated_against_impl=nrand, runs=runs, counters=counters, drift=drift[:10],
         drift_total=counters.get("drift_total", 0), l2_conformant=(counters.get("drift_total", 0) == 0))
     return conclude(ctx, uniq, "model_checking", coverage, ASSUME)
